@@ -5,7 +5,8 @@ is_ready() assertion); check-then-act: between the readiness decision and the en
 await, or the waker reserves the slot (updates a field that wait_readiness reads); cap-source: the
 argument of set_cap derives from the negotiated values (v5 server: min(max_send, peer Receive
 Maximum); v5 client: CONNACK receive_max; v3: max_send) on the accept path. The count at every
-instant for every interleaving is not decided."""
+instant for every interleaving is not decided. cap-source (continued, v5 server): every value that can reach set_cap - following copies and branch merges backwards - is `min(.., peer Receive Maximum)` (or the no-peer-limit branch).
+"""
 from facts import *
 
 ENQ = r'^%s::shared::MqttShared::(wait_response|wait_publish_response|wait_publish_response_no_block)$'
